@@ -3,8 +3,12 @@
    Coll/PGHT.v and followed by Print Assumptions.  Model: Coll/ModelGHT.v.
    [wf h d t]: t is a trie of height h keyed from column d on, as produced by insert/merge
    (distinct child keys, no empty child, rows below child k have k in column d, leaves are sets).
-   NOT covered: COLT force_drain / the forest-level ColtGet (colt.rs) and the leaf's `forced` flag. *)
-From HV Require Import Coll.ModelGHT Coll.PGHT.
+   The extended model ModelGHT2 (every leaf storage, `forced` flag, force_drain, child drain, COLT
+   forest get) is correspondence-checked; proved about it: the two recorded deviations below and
+   conservation of the multiset of rows by insert / merge_node / force_drain for the counted and
+   column leaf storages.  NOT proved (correspondence only): ColtGet::get returns a forest holding
+   exactly the rows with the given prefix and loses nothing. *)
+From HV Require Import Coll.ModelGHT Coll.PGHT Coll.ModelGHT2 Coll.PGHT2 Coll.PVC.
 From Coq Require Import Permutation.
 
 (* Every answer of every history of insert / merge / contains / recursive_iter / prefix_iter /
@@ -131,7 +135,59 @@ Example C08_former_witness :
   pcmp 1 (insert 1 0 (empty 1) [1; 10]%N) (insert 1 0 (empty 1) [2; 20]%N) = PNone.
 Proof. exact pcmp_former_witness. Qed.
 
+(* ---- extended model: multiset leaf storages (k <> KSet), any height *)
+Theorem C08_multiset_insert :
+  forall k a, k <> KSet -> 0 < a -> forall h d t r, good k a h t -> length r = a ->
+    good k a h (sinsert k a h d t r) /\
+    forall x, cnt (sriter h (sinsert k a h d t r)) x = cnt (sriter h t) x + (if row_eqb x r then 1 else 0).
+Proof. intros k a m p. exact (@sinsert_cnt k a m p). Qed.
+Print Assumptions C08_multiset_insert.
+
+Theorem C08_multiset_merge :
+  forall k a, k <> KSet -> 0 < a -> forall h t u, good k a h t -> good k a h u ->
+    good k a h (fst (smerge h t u)) /\
+    forall x, cnt (sriter h (fst (smerge h t u))) x = cnt (sriter h t) x + cnt (sriter h u) x.
+Proof. intros k a m p. exact (@smerge_cnt k a m p). Qed.
+Print Assumptions C08_multiset_merge.
+
+Theorem C08_multiset_force_drain :
+  forall k a, k <> KSet -> 0 < a -> forall st f d, leaf_good k a st ->
+    exists st' t', sforce_drain k a 0 d (SLeaf st f) = (SLeaf st' true, Some t') /\
+      leaf_good k a st' /\ (forall x, cnt (st_iter st') x = 0) /\ good k a 1 t' /\
+      forall x, cnt (sriter 1 t') x = cnt (st_iter st) x.
+Proof. intros k a m p. exact (@sforce_drain_cnt k a m p). Qed.
+Print Assumptions C08_multiset_force_drain.
+
+(* ---- recorded findings (open) *)
+(* derived PartialEq of GhtLeaf compares the COLT flag `forced` *)
+Theorem C08_forced_eq_refuted :
+  exists ops, ops = forced_ops /\
+    xmodel_run KSet 2 0 ops = [XABool true; XAOptRows (Some [[1; 1]%N]); XACmp (PSome Eq); XABool false] /\
+    xspec_run KSet 0 ops = [XABool true; XAOptRows (Some [[1; 1]%N]); XACmp (PSome Eq); XABool true].
+Proof. exact forced_eq_refuted. Qed.
+Print Assumptions C08_forced_eq_refuted.
+
+(* an emptied child stays in GhtInner::children and counts as content (outside `wf`) *)
+Theorem C08_empty_child_refuted :
+  exists ops, ops = empty_child_ops /\
+    xmodel_run KSet 2 1 ops =
+      [XABool true; XAOptRows (Some [[1; 10]%N]); XARows []; XABool true; XACmp (PSome Gt);
+       XABool false; XABool true] /\
+    xspec_run KSet 1 ops =
+      [XABool true; XAOptRows (Some [[1; 10]%N]); XARows []; XABool true; XACmp (PSome Eq);
+       XABool true; XABool false].
+Proof. exact empty_child_refuted. Qed.
+Print Assumptions C08_empty_child_refuted.
+
 (* ---- non-vacuity *)
+Example C08_ex_good :
+  good KColumn 2 1 (sinsert KColumn 2 1 0 (sempty KColumn 2 1) [1; 2]%N).
+Proof.
+  apply (@sinsert_cnt KColumn 2 ltac:(discriminate) ltac:(repeat constructor) 1 0 (sempty KColumn 2 1) [1; 2]%N).
+  - apply good_sempty.
+  - reflexivity.
+Qed.
+
 Example C08_ex_wf :
   let t := insert 2 0 (insert 2 0 (insert 2 0 (empty 2) [1; 2; 3]%N) [1; 4; 5]%N) [2; 2; 2]%N in
   wf 2 0 t /\ riter 2 t = [[1; 2; 3]; [1; 4; 5]; [2; 2; 2]]%N /\
